@@ -89,7 +89,13 @@ where
             if result.timed_out()
                 || (duration.as_secs() == 0 && duration.subsec_nanos() < 1_000_000)
             {
-                return None;
+                // This wake-up may have consumed a notification: look at the queue
+                // one last time instead of leaving the element to a receiver that
+                // was never woken.
+                return match queue.pop_front() {
+                    Some(Control::Elem(value)) => Some(value),
+                    Some(Control::Unblock) | None => None,
+                };
             }
         }
     }
